@@ -77,3 +77,52 @@ func c17EarlyExit() {
 		}
 	}
 }
+
+// C17/self-release: a fire-and-forget job. The holder hands its done function to the worker function,
+// which calls it itself when the job is finished (it is then the last holder) and only afterwards
+// sees its stop channel closed and returns. Nothing may wait for the instance's exit inside that call.
+func init() {
+	Register(Harness{Prop: "C17", Name: "C17/self-release", Run: c17SelfRelease, Weight: 1})
+}
+
+func c17SelfRelease() {
+	var w bigbuff.Worker
+	rounds := simrt.DrawRange(1, 3)
+	for r := 0; r < rounds; r++ {
+		hand := make(chan func(), 1)
+		started, stopped, returned := 0, 0, false
+		job := pause{1, simrt.DrawRange(0, 3)}
+		pre := drawPause()
+		fn := func(stop <-chan struct{}) {
+			started++
+			release := <-hand
+			job.do(1000)
+			simrt.Probe("done_called_by_the_worker_function")
+			release() // the job is finished: nobody needs the instance any more
+			<-stop
+			stopped++
+		}
+		go func() {
+			pre.do(1000)
+			done := w.Do(fn)
+			hand <- done
+			returned = true
+		}()
+		simrt.Quiesce(-1)
+		if simrt.Failed() {
+			return
+		}
+		if !returned {
+			simrt.Failf("C17.do-stuck", "round %d: Do has not returned at quiescence", r)
+			return
+		}
+		if started != 1 {
+			simrt.Failf("C17.no-instance-for-holder", "round %d: the worker function was started %d times for one Do on an idle Worker", r, started)
+			return
+		}
+		if stopped != 1 {
+			simrt.Failf("C17.instance-not-stopped", "round %d: the only holder's done function has been called (by the worker function itself), yet the instance has not seen its stop channel closed and returned", r)
+			return
+		}
+	}
+}
